@@ -51,6 +51,10 @@ CORPUS = [
     # an instance of a class whose *base* class may get a printer by name (action R)
     ("vf.props.c19.RecChild(user='alice', action='login')", {}),
     ("[vf.props.c19.RecBase(x=1)]", {}),
+    # values that are equal and hash alike but must print differently
+    ("[-0.0, 1, 'x', (1,)]", {}),
+    ("[0.0, True, 'x', (1.0,)]", {}),
+    ("[1.0, 0, b'x', (True,)]", {}),
 ]
 
 
@@ -324,7 +328,7 @@ def cases(tier, seed):
     sub = [13, 8] if tier == 'quick' else [4, 13, 3, 8]
     out.append({'name': 'k1:sub-corpus|page', 'family': 'history',
                 'params': {'k': 1, 'baselines': baselines, 'indices': sub, 'slice': 'page', 'traced': True},
-                'budget': 150.0 if tier == 'quick' else 1500.0, 'path_timeout': 60.0})
+                'budget': 90.0 if tier == 'quick' else 1500.0, 'path_timeout': 60.0})
     return out
 
 
